@@ -4,7 +4,8 @@
 (* case and what rustdoc (i.e. the compiler) reports for the module the     *)
 (* derive was applied in.  Expected surface: Surface!SurfaceOK.             *)
 (*  [ev |-> "surface", case, c |-> case record, built |-> BOOLEAN,           *)
-(*   items, structs, traits (sequences, see Surface.tla)]                    *)
+(*   items, structs, traits (sequences, see Surface.tla),                    *)
+(*   peer |-> sequence of [name, isconst, ref] (see Step)]                   *)
 (***************************************************************************)
 EXTENDS Surface, IOUtils, Sequences
 
@@ -16,7 +17,8 @@ ObsOf(e) == [items |-> ToSet(e.items),
              traits |-> ToSet(e.traits)]
 \* which clause fails (for the report)
 Why(cc, o) ==
-  IF ~(\A u \in UserItems(cc) : u \in o.items) THEN "a requested item is missing or has another name / kind / visibility / const-ness"
+  IF ~(\A u \in UserItems(cc) : \E i \in o.items : i.name = u.name /\ i.kind = u.kind /\ i.vis = u.vis /\ (u.isconst => i.isconst))
+  THEN "a requested item is missing or has another name / kind / visibility / const-ness"
   ELSE IF ~(\A i \in o.items : (\E u \in UserItems(cc) : u.name = i.name) \/ i.vis = "private") THEN "a helper item is not private"
   ELSE IF ~(\A s \in UserStructs(cc) : \E t \in o.structs : t.name = s.name /\ t.vis = s.vis /\ s.traits \subseteq t.traits) THEN "iterator struct: name, visibility or traits"
   ELSE IF ~(\A t \in o.structs : \E s \in UserStructs(cc) : s.name = t.name) THEN "an undocumented item was added to the module"
@@ -28,8 +30,17 @@ Step ==
      IF ~e.built
      THEN PrintT(<<"VIOL", ToJson([line |-> l, case |-> e.case, props |-> {"C10"}, why |-> "legal surface case does not compile", msg |-> e.msg])>>)
      ELSE LET o == ObsOf(e) IN
-          (~SurfaceOK(e.c, o) =>
-             PrintT(<<"VIOL", ToJson([line |-> l, case |-> e.case, props |-> {"C15"}, why |-> Why(e.c, o), msg |-> ""])>>))
+          /\ (~SurfaceOK(e.c, o) =>
+                PrintT(<<"VIOL", ToJson([line |-> l, case |-> e.case, props |-> {"C15"}, why |-> Why(e.c, o), msg |-> ""])>>))
+          \* C09 (metamorphic): e.peer lists, for items of this case, the const-ness the SAME item had in an earlier case of
+          \* the SAME declaration under another configuration (refcase: that event's line).  Whether an item can be called
+          \* in a constant expression is observable; it must not depend on the mode or on the co-enabled features.
+          /\ Assert(\A p \in ToSet(e.peer) : p.ref < l /\ Rec[p.ref].built
+                                             /\ \E i \in ToSet(Rec[p.ref].items) : i.name = p.name /\ i.isconst = p.isconst,
+                    <<"malformed peer annotation at line", l>>)
+          /\ ((\E p \in ToSet(e.peer) : \E i \in o.items : i.name = p.name /\ i.isconst # p.isconst) =>
+                PrintT(<<"VIOL", ToJson([line |-> l, case |-> e.case, props |-> {"C09"},
+                                         why |-> "the const-ness of an item depends on the configuration", msg |-> ""])>>))
 TSpec == TInit /\ [][Step]_l
 Consumed == IF TLCGet("stats").diameter - 1 = Len(Rec) THEN PrintT(<<"CONSUMED", Len(Rec)>>)
             ELSE PrintT(<<"STUCK", TLCGet("stats").diameter>>) /\ FALSE
